@@ -28,7 +28,7 @@ def cat_layout(nvalid, missing_at):
     return cats
 
 
-def make_var(kind, alias, size, missing_at=(1,), insertions=None, numeric_values=None, dates=False):
+def make_var(kind, alias, size, missing_at=(1,), insertions=None, numeric_values=None, dates=False, cats=None, selected_id=None):
     if kind in ("cat", "catdate"):
         cats = cat_layout(size, missing_at)
         d = None
@@ -38,7 +38,8 @@ def make_var(kind, alias, size, missing_at=(1,), insertions=None, numeric_values
     if kind == "mr":
         return tab.MR(alias, size, insertions=insertions)
     if kind == "ca":
-        return tab.CA(alias, size[0], cat_layout(size[1], missing_at), insertions=insertions, numeric_values=numeric_values)
+        return tab.CA(alias, size[0], cats if cats is not None else cat_layout(size[1], missing_at), insertions=insertions,
+                      numeric_values=numeric_values, selected_id=selected_id)
     raise ValueError(kind)
 
 
